@@ -1014,6 +1014,16 @@ func extractMain(args []string) {
 			repo = args[i+1]
 		}
 	}
+	for _, a := range args {
+		if a == "--state" { // hidden-state tie: module GeomV.C04.GenState (state.go)
+			stateMain(repo)
+			return
+		}
+		if a == "--selfcheck" { // independent second pass over the AST against the generated text (selfcheck.go)
+			selfcheckMain(repo)
+			return
+		}
+	}
 	s, failed := extract(repo)
 	fmt.Print(s)
 	if len(failed) > 0 {
